@@ -61,6 +61,7 @@ OPTS = [
     dict(compress=True, agent='TestAgent/1.0'),
     dict(headers=[[b'X-Custom', b'one'], [b'Authorization', b'Bearer abc.def']]),
     dict(headers=[[b'Cookie', b'a=b; c=d']], protocols=['p1'], agent='A'),
+    dict(agent='Sensor d\u2019atelier/2.1 \u76e3\u8996'),
 ]
 
 
